@@ -394,6 +394,11 @@ def gen_project(R, bvmods, today, *, eol_choices=("\n",), filler="plain", legacy
             # the config file lists itself with a second pattern (a comment line carrying the version)
             extra_selfp = "released as {version} !"
             own = [selfp, extra_selfp] if R.random() < 0.5 else [extra_selfp, selfp]
+            if R.random() < 0.3:
+                # ... and leaves the pattern for the current_version line to bumpver (which "always adds a pattern
+                # for the config section itself")
+                own = [extra_selfp]
+                proj.meta["own_line_pattern_left_to_bumpver"] = True
         entries.insert(pos, (proj.cfg_name, own))
     if fmt == "cfg" and any(("=" in k or ":" in k) for k, _ in entries):
         return None, "ini-key"
@@ -558,6 +563,7 @@ def gen_project(R, bvmods, today, *, eol_choices=("\n",), filler="plain", legacy
         return None, "layout:" + why.split(":")[0]
     proj.meta = {"cfg_comment": proj.meta.get("cfg_comment"), "repeated_occurrences": proj.meta.get("repeated_occurrences", 0), "cfg_extra": commit_cfg, "bom_files": proj.meta.get("bom_files", []), "n_files": nf, "fmt": fmt, "explicit_cfg": explicit_cfg, "quote": quote,
                  "aliased_path_entries": proj.meta.get("aliased_path_entries", 0),
+                 "own_line_pattern_left_to_bumpver": proj.meta.get("own_line_pattern_left_to_bumpver", False),
                  "end_anchored_patterns": proj.meta.get("end_anchored_patterns", 0),
                  "shared_lines": sum(1 for _ in _shared_lines(proj)), "kinds": sorted({p.kind for p in proj.plants}),
                  "eols": sorted(set(proj.eol.values())), "globs": sum(1 for k, _ in entries if "*" in k or "?" in k)}
